@@ -462,6 +462,33 @@ func runC16(r *Run) {
 		w.send("h1", []c16Op{{Name: "tu", Action: "add", Value: ip(4)}})
 	})
 
+	r.One(14, func(c *Case, _ *Rng) {
+		c.Desc = "finding: counter series shared by two groups: gb's add accumulates onto ga's value, ga's next batch wipes both"
+		c.Known = "group-ownership-by-label-hash"
+		c.Nontrivial = true
+		w := newC16World(c)
+		l := map[string]string{"x": "1", "y": "a"}
+		w.send("h2", []c16Op{{Name: "gc1", Group: "ga", Action: "add", Value: ip(4), Labels: l}})
+		w.send("h2", []c16Op{{Name: "gc1", Group: "gb", Add: ip(6), Labels: l}})
+		w.send("h2", []c16Op{{Name: "gg2", Group: "ga", Action: "set", Value: ip(2)}})
+	})
+	r.One(15, func(c *Case, _ *Rng) {
+		c.Desc = "finding: a name used ungrouped, then grouped: the grouped operations are dropped silently (and still expire the group)"
+		c.Known = "grouped-ungrouped-name-clash"
+		c.Nontrivial = true
+		w := newC16World(c)
+		w.send("h1", []c16Op{{Name: "m2", Action: "add", Value: ip(3)}})
+		w.send("h1", []c16Op{{Name: "m2", Group: "gc", Action: "add", Value: ip(4)}, {Name: "gg1", Group: "gc", Set: ip(5)}})
+	})
+	r.One(16, func(c *Case, _ *Rng) {
+		c.Desc = "finding: ungrouped operation with FEWER label names than the metric's first use is dropped silently"
+		c.Known = "ungrouped-label-names-change"
+		c.Nontrivial = true
+		w := newC16World(c)
+		w.send("h3", []c16Op{{Name: "uh", Action: "observe", Value: ip(2), Buckets: true, Labels: map[string]string{"x": "1", "y": "b"}}})
+		w.send("h3", []c16Op{{Name: "uh", Action: "observe", Value: ip(4), Buckets: true, Labels: map[string]string{"x": "1"}}})
+	})
+
 	r.Cases(100, r.N(4000, 60000), 0, func(c *Case, rng *Rng) {
 		w := newC16World(c)
 		g := &c16Gen{w: w, rng: rng}
